@@ -304,6 +304,11 @@ def keyfn(tag, inp, exp, got):
     except Exception:
         where = '?'
     t = tag
+    if div == 'exc-args-or-log':
+        div = 'log'                      # same exception type in both runs, only the event log differs
+    if t.startswith('nest'):
+        # nested skeletons: keyed by the outer skeleton; the late attribute lookup of method calls keeps its own family
+        t = 'mcall/nested' if where == 'getattr->leaf' else 'nest/' + t.split('/')[1]
     if t.startswith(('bool/', 'bool-if/')):
         t = '/'.join(t.split('/')[:2])
     if t.startswith(('call/', 'mcall/')):
